@@ -4,7 +4,7 @@ SPEC = {
     "coq_targets": ["Props/C09.vo", "gen/ParamsMiscTieC09.vo"],
     "harness": "hx-freezer",
     "translators": [["const2v_misc.py"]],
-    "level_text": "Proof (Coq): for every history of appends, truncations, re-opens and crash cuts (any index length keeping the sentinel x any length of the newest data file) the model of freezer_files.rs re-opens without error and holds a byte-exact prefix of the appended items, dropping only index entries whose data did not fully survive (c09_refines_list, c09_repair_prefix, c09_repair_keeps_written, c09_clean_answers); the 12-byte index codec round-trips; histories with retrieve(i) calls of any items inserted anywhere (each moves the cursor the head file's write handle shares with the cached read handle) reach the very same states (c09_reads_refine, c09_reads_same_state). The model is tied to the code on every run by running the real FreezerFiles and the model on the same generated histories (with and without lone reads in between; block-level Freezer passes with a read between two passes) and on exhaustive cut sweeps of small disks; the property predicate is also evaluated directly on the implementation (compression on and off). Transient I/O errors: every third payload length is appended while the head data file is renamed away (an append that rolls over cannot re-open the old head read-only and returns Err; number() must be unchanged, the retry with the file back must succeed, every item must read back); a panic of the freezer is reported with the history. Half of the block-level stream's blocks carry an extension (Freezer::open decodes the last frozen block to restore its tip).",
+    "level_text": "Proof (Coq): for every history of appends, truncations, re-opens and crash cuts (any index length keeping the sentinel x any length of the newest data file) the model of freezer_files.rs re-opens without error and holds a byte-exact prefix of the appended items, dropping only index entries whose data did not fully survive (c09_refines_list, c09_repair_prefix, c09_repair_keeps_written, c09_clean_answers); after any history the list is items this history appended in front of an oldest part of the initial list, unchanged and in order: nothing is invented, reordered or altered (c09_spec_run_shape, c09_run_keeps_items); the 12-byte index codec round-trips; histories with retrieve(i) calls of any items inserted anywhere (each moves the cursor the head file's write handle shares with the cached read handle) reach the very same states (c09_reads_refine, c09_reads_same_state). The model is tied to the code on every run by running the real FreezerFiles and the model on the same generated histories (with and without lone reads in between; block-level Freezer passes with a read between two passes) and on exhaustive cut sweeps of small disks; the property predicate is also evaluated directly on the implementation (compression on and off). Transient I/O errors: every third payload length is appended while the head data file is renamed away (an append that rolls over cannot re-open the old head read-only and returns Err; number() must be unchanged, the retry with the file back must succeed, every item must read back); a panic of the freezer is reported with the history. Half of the block-level stream's blocks carry an extension (Freezer::open decodes the last frozen block to restore its tip).",
     "level_note": "Trusted: Coq kernel; hand-written model Freezer/Files.v (correspondence-checked each run, not verified against the Rust text); file-system semantics of set_len/seek/read; snappy treated as an opaque lossless codec; fsync durability and the fs2 lock are outside the model. The theorems are about the repaired loop (fix: commit eb5b786 in /repo); build_old_refuted keeps the pre-fix loop's witness; the append is the repaired Head::write (fix: commit 524040d: seek to head.bytes before writing), c09_cursor_old_refuted keeps the witness for the write at the shared cursor.",
     "trusted_base": COMMON_TB + [
         "translator tools/const2v_misc.py (regular expressions over the constant declarations; the generated gen/ParamsMiscTie.v proves the models' constants equal to them)",
